@@ -29,7 +29,7 @@ RULE = ("case = list of operations (incl. deliver steps) over 3 agents, 3 comput
         "asserted at the end on an item that changed after the subscription, with deliveries interleaved; distinct by "
         "sha1(case)")
 ASSUMPTIONS = ["all Discovery objects live in one process; addresses are opaque strings"]
-BUDGET = {"quick": {"workers": 8, "examples": 300, "seconds": 45},
+BUDGET = {"quick": {"workers": 8, "examples": 1500, "seconds": 45},
           "thorough": {"workers": 16, "examples": 4000, "seconds": 600}}
 
 AGENTS = ["a1", "a2", "a3"]
